@@ -513,6 +513,7 @@ type Scenario struct {
 	Reject  string `json:"reject,omitempty"` // "", "conc" (Concurrency limit), "perip" (MaxConnsPerIP)
 	HjIn    int    `json:"hjin,omitempty"`   // hijack handler: bytes to read before returning (-1: until EOF)
 	HjLate  bool   `json:"hjlate,omitempty"` // KeepHijackedConns: keep reading (to EOF) after the handler returned
+	Early   bool   `json:"early,omitempty"`  // observe whether the server closes on its own after the last step
 	StepGap int    `json:"gap,omitempty"`    // ms to sleep before each step
 }
 
@@ -537,6 +538,7 @@ type Result struct {
 	Seen         []string
 	Hijack       HijackResult
 	Finished     bool
+	Early        bool  // the server closed the connection before the client closed its side
 	RespAtStep   []int // number of complete responses seen after each step
 	ClosedAtStep []bool
 }
@@ -757,6 +759,16 @@ func RunScenario(sc Scenario) Result {
 		res.RespAtStep = append(res.RespAtStep, k)
 		res.ClosedAtStep = append(res.ClosedAtStep, cl)
 	}
+	if sc.Early {
+		// give the server time to close on its own: long if the last response announced it
+		out, _, _ := conn.Snapshot()
+		rs, _ := ParseResponses(out)
+		d := 25 * time.Millisecond
+		if len(rs) > 0 && HasCloseOption(rs[len(rs)-1].Conn) {
+			d = 1500 * time.Millisecond
+		}
+		res.Early = conn.Wait(d, func() bool { return conn.Closed })
+	}
 	if sc.EndEOF {
 		conn.CloseWrite()
 	}
@@ -856,4 +868,16 @@ func (r Req) Bytes(idx int) []byte {
 	b.WriteString("\r\n")
 	b.Write(r.Body)
 	return b.Bytes()
+}
+
+// HasCloseOption is the harness's own reading of RFC 9110 7.6.1 (only used to choose how long to wait).
+func HasCloseOption(vals []string) bool {
+	for _, v := range vals {
+		for _, e := range strings.Split(v, ",") {
+			if strings.EqualFold(strings.Trim(e, " \t"), "close") {
+				return true
+			}
+		}
+	}
+	return false
 }
